@@ -215,16 +215,20 @@ func Run(c *verdict.Ctx) int {
 		return runChild(c, runPubsub)
 	case "index":
 		return runChild(c, runIndex)
+	case "bignum":
+		return runChild(c, runBignum)
 	}
 	c.Level = "exploration"
 	c.Rule = "qdiff: a (query, event map) pair is distinct by its text and non-trivial when the reference verdict is true or false (not error) and the query's keys occur in the map; " +
 		"pubsub: a run (seeded set of subscriptions, publication list, subscribe/unsubscribe script) is distinct by its descriptor and non-trivial when >= 2 subscriptions each had >= 1 event they were obliged to receive; " +
-		"index: a search is distinct by (run, kind, query text) and non-trivial when it has >= 2 conditions or its reference result is a non-empty proper subset of the indexed items"
+		"index: a search is distinct by (run, kind, query text) and non-trivial when it has >= 2 conditions or its reference result is a non-empty proper subset of the indexed items; " +
+		"bignum: a (run, query) is distinct by its text and non-trivial when the exact oracle matches a non-empty proper subset of the published items"
 	c.Assume(
 		"query semantics: a condition holds iff any value under its key satisfies it, conjunction over conditions (rpc/openapi subscribe description, query package comment); comparisons of a number/time operand with a value that is not a canonical non-negative integer / RFC3339 time / date are undefined and impose no obligation",
 		"search semantics: several range conditions on one key are decided only where 'each condition by some value' and 'one value inside all of them' agree",
 		"only attributes with Index=true, a non-empty event type and a non-empty key are indexed, plus tx.height, tx.hash, block.height",
 		"publication order = order of return of Publish* calls of the single publisher goroutine; subscribe/unsubscribe windows by a monitor clock read before the call and after its return",
+		"bignum: number semantics are the query language's own (first run of [0-9.], sign and unit ignored; integer operand: integer run must fit int64, a run with a decimal point is rounded to float64 and truncated and must then fit int64; decimal-point operand: both sides as float64; kv search: only whole-value int64 integers take part, decimal-point operands do not match); what cannot be an int64 / cannot be parsed is mistyped and must be neither delivered nor returned; subscription-vs-search differences are counted, not claimed",
 		"tm-db MemDB, protobuf encoding, SHA-256 (tx hash) are shared with the implementation",
 	)
 	if rp := c.Replay(); rp != "" {
@@ -242,6 +246,8 @@ func Run(c *verdict.Ctx) int {
 			}
 		case "index":
 			indexCase(c, c, ref.Case)
+		case "bignum":
+			bignumCase(c, c, ref.Case)
 		default:
 			c.HarnessError("unknown stream %q in replay file", ref.Stream)
 		}
@@ -264,10 +270,13 @@ func Run(c *verdict.Ctx) int {
 	if want("index") {
 		runStage(c, "index", self, false, runIndex, c.N(200, 10000), 2500)
 	}
+	if want("bignum") {
+		runStage(c, "bignum", self, false, runBignum, c.N(400, 20000), 5000)
+	}
 	c.Set("exploratory_first_disagreement_per_class", explore.snapshot())
 
 	min := 2000
-	if only == "" && c.Violations() == 0 && (c.Counter("pubsub.runs") == 0 || c.Counter("index.searches") == 0 || c.Counter("qdiff.pairs") == 0) {
+	if only == "" && c.Violations() == 0 && (c.Counter("pubsub.runs") == 0 || c.Counter("index.searches") == 0 || c.Counter("qdiff.pairs") == 0 || c.Counter("bignum.pairs") == 0) {
 		c.HarnessError("a stage observed nothing: qdiff=%d pubsub=%d index=%d", c.Counter("qdiff.pairs"), c.Counter("pubsub.runs"), c.Counter("index.searches"))
 	}
 	return c.Finish(min)
